@@ -55,7 +55,7 @@ func runC11(rc *RunCtx) {
 		c.Services = append(c.Services, sv)
 		// version-specific extra service on its own ports
 		if G.Draw(2) == 0 {
-			c.Services = append(c.Services, mSvc{Listeners: []mLn{{"tcp", fmt.Sprintf("127.0.0.1:%d", 9200+v)}, {"udp", fmt.Sprintf("127.0.0.1:%d", 9200+v)}}, Keys: extra[:1+G.Draw(len(extra))]})
+			c.Services = append(c.Services, mSvc{Listeners: []mLn{{"tcp", fmt.Sprintf("127.0.0.1:%d", 9200+v)}, {"udp", fmt.Sprintf("127.0.0.1:%d", 9200+v)}}, Keys: append([]*Key(nil), extra[:1+G.Draw(len(extra))]...)})
 		}
 		return c
 	}
@@ -101,13 +101,13 @@ func runC11(rc *RunCtx) {
 	var reloadErr error
 	// ---- long-lived relays opened before the first reload ----
 	type relay struct {
-		kind   int // 0 idle across the reloads, 1 mid-transfer, 2 client half-closed while the target still sends
-		c      *simnet.TCPConn
-		key    *Key
-		sent   []byte
-		got    []byte
-		err    error
-		done   bool
+		kind        int // 0 idle across the reloads, 1 mid-transfer, 2 client half-closed while the target still sends
+		c           *simnet.TCPConn
+		key         *Key
+		sent        []byte
+		got         []byte
+		err         error
+		done        bool
 		closedEarly bool
 		established bool
 	}
